@@ -212,6 +212,9 @@ type c07Judge struct {
 	src    *c07Src
 	ingest string
 	desc   string
+	// batched: frames batched behind one source timestamp (several ADTS frames in one PES) have their exact time
+	// quantised once more by the source clock itself; one 90 kHz tick is allowed on top of the millisecond
+	batched float64
 }
 
 func (j *c07Judge) bad(kind, clause, format string, a ...interface{}) {
@@ -373,7 +376,7 @@ func (j *c07Judge) judge(kind string, items []ref.RtmpMsg, tailSlack int, vTicks
 		sort.Float64s(s)
 		med := s[len(s)/2]
 		for k := range d {
-			if math.Abs(d[k]-med) > 1.0 {
+			if math.Abs(d[k]-med) > 1.0+j.batched {
 				j.bad(kind, track+"-timestamp", "%s unit %d: received %d ms, source %.3f ms; offset %.3f differs from the track constant %.3f by more than 1 ms (cumulative drift or jump) over %d units", track, k, recv[k], srcMs[k], d[k], med, len(d))
 				return
 			}
@@ -1006,6 +1009,7 @@ func c07Run(c *fw.Ctx, i int) {
 		multiAdts := sp.ACodec == "aac" && (i/7)%2 == 1
 		if multiAdts {
 			jd.ingest += "-multi-adts"
+			jd.batched = 1000.0 / 90000
 		}
 		skipAudio := 0
 		for fk, f := range src.es.Frames {
